@@ -1011,6 +1011,8 @@ func (p *Parser) Parse() (Statement, error) {
 	}
 
 	// Check syntax
+	// (a where clause that is only the name of a select field is that field)
+	expr = tryRewriteNameExpr(expr, checkCtx)
 	err = expr.Check(checkCtx)
 	if err != nil {
 		return nil, err
